@@ -8,6 +8,39 @@ PY = "/venv/bin/python"
 
 # id -> (technique, level text, level note, design ref)
 CHECKS = {
+    "C07": ("Hypothesis gate sequences (0..300 gates, macros for redundant patterns) x configurations, collect-then-shrink, vs. dense-simulation fidelity, coupling table, LC-oracle class cost and input snapshot",
+            "Random and structured Clifford circuits over the documented gate set are compressed; input and output states are compared by a "
+            "from-scratch dense simulator, the output is checked against the coupling table and the class cost, and the input object is "
+            "snapshotted before/after. Sampling of an unbounded domain: evidence reports the length, class and configuration histograms.",
+            "Trusted: dense simulator, LC-orbit oracle, strict table parser. Circuits are sampled (all lengths 0..300, all 20 configurations).",
+            "DESIGN.md §4 C07"),
+    "C08": ("exhaustive small matrices (n=2 all, n=3 all in thorough) + Hypothesis near-miss distributions + full product of entry points x names, vs. brute-force validity and outcome classification",
+            "Every request is classified as raised/returned; a returned preparation circuit for an invalid set is a violation outright, returned "
+            "circuits are verified by dense simulation / propagation, validate() is compared with a brute-force oracle, and every entry point is "
+            "driven through {0..8} x 19 names. Exceptions are the contract, so only wrong returns and wrong accept/reject decisions count.",
+            "Trusted: brute-force validity oracle, dense simulator. Arbitrary (non-near-miss) matrices are generated for n<=4 only, because the layer "
+            "search needs exponential time/memory on unstructured 5-6 qubit input (performance, not part of the property); a 15 s / 6 GB guard "
+            "turns such calls into 'inconclusive', never into a verdict.",
+            "DESIGN.md §4 C08"),
+    "C14": ("Hypothesis over string lists (valid and arbitrary), circuits; exhaustive graphs n<=4; round-trip / mirror / differential oracles with own parser and dense simulator",
+            "String -> object -> string round trips, the mirrored export, matrices <-> strings, graph generators X_v Z_N(v), and circuit inputs "
+            "(every exported signed string must stabilise the independently simulated state; signed canonical form equal to the tableau-free "
+            "oracle group) are checked on generated inputs of all four formats.",
+            "Trusted: own Pauli parser / signed RREF canonical form, dense simulator.",
+            "DESIGN.md §4 C14"),
+    "C15": ("exhaustive pairs of groups (n=2,3), exhaustive groups x qubits (n<=4), Hypothesis pairs with planted equal / one-generator-apart groups, vs. RREF canonical form and brute-force span",
+            "is_equivalent_mod_phase is compared with equality of canonical forms on all 18 450 ordered pairs for n<=3 (random bases, signs, "
+            "formats) and on generated pairs for n=4..6; expand() and is_qubit_entangled are compared with brute-force span enumeration on every "
+            "group for n<=4 and constructed members of every class for n=5,6.",
+            "Trusted: own canonical form and span enumeration.",
+            "DESIGN.md §4 C15"),
+    "C16": ("exhaustive (n=2 operator sets; all groups x all graphs n<=3 quick / n<=4 thorough) + Hypothesis (uniform / planted / corrupted) vs. brute force over all 6^n layers",
+            "Every call of the layer search is compared with a numpy-vectorised brute force over all 6^n local Clifford layers: None exactly when "
+            "no layer exists, a returned layer must be admissible and among the solutions, and the generated gate list must act on X_q, Z_q as "
+            "the blocks say. Both branches are generated constructively (planted solutions, corrupted solutions, foreign classes).",
+            "Trusted: brute-force enumeration; bitmask conjugation rules. Operator sets with very few operators on 5-6 qubits are excluded from the "
+            "generator (the library enumerates 2^(kernel dimension) combinations there); a 30 s guard makes such calls inconclusive.",
+            "DESIGN.md §4 C16"),
     "C01": ("exhaustive sweep (n<=3 all signs; n<=5 in thorough) + class-stratified constructed members (n=5,6) + Hypothesis over formats/bases/circuit inputs, vs. dense state-vector simulation",
             "Every returned preparation circuit is simulated by a from-scratch dense simulator and every given signed operator must stabilise the "
             "result. Quick enumerates all groups for n<=3 with all sign vectors and all 2295 four-qubit groups; thorough enumerates all groups n<=4 "
